@@ -1,4 +1,5 @@
 import ParryModel.C13.Theorems4
+import ParryModel.C13.Model5
 import ParryModel.C13.Theorems3
 import ParryModel.C13.Theorems2
 import ParryModel.C13.Lemmas
@@ -1709,5 +1710,16 @@ theorem transformBy3_sum (hs : LawfulSqrt sq) (eig : M3 K → V3 K × M3 K) (ps 
     have e0 : originTensor sq (@MP3.sum K (fieldNum K sq) eig ps) = totTensor3 sq ps := s5
     rw [e, t3, hl, e0, s2, s3, s4, s1]
     try rfl
+
+/-! ### world-space accessors -/
+
+/-- **`world_com` / `world_inv_inertia_sqrt`**: `world_com(pos)` is the centre of mass of `transform_by(pos)` (2-D and 3-D;
+so `transformBy_covariant` / `transformBy3_covariant` apply), and the 2-D `world_inv_inertia_sqrt(rot)` is the stored
+rotation-invariant scalar, the one `transform_by` keeps. -/
+theorem world_accessors_spec (p : MP2 K) (m : Iso2 K) (p3 : MP3 K) (m3 : Iso3 K) :
+    letI := fieldNum K sq
+    p.worldCom m = (p.transformBy m).com ∧ p.worldInvInertiaSqrt m = (p.transformBy m).invI ∧
+    p3.worldCom m3 = (p3.transformBy m3).com := by
+  exact ⟨rfl, rfl, rfl⟩
 
 end C13
